@@ -146,6 +146,19 @@ def run_family(prop, tier, mc_cfg, edge_cfg, sizes, deep=False, probes=(), assum
         probe_res[cfg] = hit
     env = {"VERIF_DEEP": "1"} if deep else {}
     rr = leg_r(wd, binary, edge_cfg, trees, specs, verdict, max_paths=(quick_paths if tier == "quick" else thorough_paths), extra_env=env)
+    pre = None
+    if prop in ("C01", "C02", "C04"):
+        # the regime the fork trees cannot reach: pre-Oak retargeting (every 500 blocks, from the
+        # timestamp of the 1000th ancestor) on a chain of 1503 real blocks -- tip states vs the
+        # independent ledger, a batch-fed side-chain node vs the linear one, update-stream states
+        pre = vlib.go_run(binary, "TestPreOak", wd, timeout=900, tag="preoak")
+        verdict.add_all(pre["mismatches"])
+        log("  P: pre-Oak chain of %d blocks (Oak hardfork at 1500 and beyond the chain): %d findings, %.1fs" % (pre.get("counts", {}).get("preoak_blocks", 0), len(pre["mismatches"]), pre["wall"]))
+    if prop == "C19":
+        # a backlog no fork tree has: 3400 real blocks pruned in one call (and again, and in steps)
+        lp = vlib.go_run(binary, "TestLongPrune", wd, timeout=900, tag="longprune")
+        verdict.add_all(lp["mismatches"])
+        log("  P: chain of %d blocks pruned in one call: %d findings, %.1fs" % (lp.get("counts", {}).get("long_blocks", 0), len(lp["mismatches"]), lp["wall"]))
     tt = None
     if extra:
         tt = extra(wd, binary, tier, verdict)
@@ -162,6 +175,9 @@ def run_family(prop, tier, mc_cfg, edge_cfg, sizes, deep=False, probes=(), assum
     if live:
         cov["liveness"] = {"cfg": live_cfg, "states": live.distinct, "transitions": live.generated, "property": "CatchUp under FairSpec (SF on Poll, WF on reorg steps)"}
         cov["states"] += live.distinct; cov["transitions"] += live.generated
+    if pre:
+        cov["pre_oak_chain"] = {"blocks": pre.get("counts", {}).get("preoak_blocks", 0), "polls": pre.get("counts", {}).get("preoak_polls", 0), "oak_height": 1500}
+        cov["evaluations"] += pre["evaluations"]
     if tt:
         cov["trace_validation"] = {k: v for k, v in tt.items() if k != "samples"}
     vlib.write_evidence(prop, tier, "model_checking", cov, list(assumptions) + [
